@@ -28,7 +28,7 @@ ASSUMPTIONS = [
 ]
 BOUNDS = {"quick": {"set_size": 2, "pair_family": "one atom on the block under test x one atom anywhere (reduced second alphabet)", "chain_depth": 2},
           "thorough": {"set_size": 2, "pair_family": "all pairs", "chain_depth": 3}}
-CAP_S = {"quick": 170, "thorough": 2400}
+CAP_S = {"quick": 400, "thorough": 2400}
 
 TERMS = {"none": None, "jmp": ["jmp", "Z"], "jcc": ["jcc", "Z"], "call": ["call", "G"], "ret": ["ret"], "ijmp": ["ijmp"], "icall": ["icall"],
          # a conditional jump whose target is the very block it falls through to (`jne .L; .L:`)
